@@ -111,7 +111,11 @@ claim('C16', 'Lean 4 proofs (decoders invert the reference encoders: Intel HEX r
       'counterexample); muted lines contribute to no format; listing rows map to address/byte pairs. Each run decodes the text the real '
       'CLI prints in all four formats with these decoders and compares with the address->byte map recovered from two real .bin runs, '
       'matches listing rows against the assembled statements, and compares two windowed images (-s strictly inside a statement, '
-      'optional -e, three fill values) with the same map.',
+      'optional -e, three fill values) with the same map. End to end (no hypothesis beyond acceptance): the lines handed to the '
+      'printers carry exactly the address/byte pairs of the emitted lines the image is made of, so every byte of every accepted '
+      'image is what the printers\' line list says about its address; the rows the listing spreads a statement over carry all its '
+      'bytes in order, at most k per row, and decode to the statement exactly once (the row helper of the real printer is compared '
+      'with the model function on every run).',
       NOTE + ' The third-party intelhex writer is not modelled; its output is only decoded. Known finding D17 (minhex-gap-without-org) is reported as KNOWN-FINDING.')
 
 claim('C13', 'Lean 4 decision-logic proofs (first matching variant, specific before sets, disallowed skipped, stable rank order inside a set, registers never numeric) + differential correspondence',
